@@ -292,6 +292,9 @@ def check_acl(platform, idx, var, ctx):
     text_before = acl.line
     try:
         r0 = acl.shading(skip)
+        if acl.line != text_before:
+            ctx.viol("Acl.shading:query_modifies_the_acl", case, acl.line, text_before)
+            return
         r1 = acl.delete_shadow(skip)
         after = canon(PR.flat_lines(acl))
         text_after = acl.line
